@@ -2,7 +2,8 @@
 Model of x509/ber.go (the BER → DER transcoder in front of ParsePKCS7) as repaired: `readObject`,
 `isIndefiniteTermination`, `encodeLength`/`lengthLength`/`marshalLongLength`, `EncodeTo`, `ber2der`.
 Every read is bounds-checked explicitly, as in the Go code; the recursion takes fuel (the Go recursion
-is bounded by the input length, see `Props.C18.readObject_progress`).  Core Lean only; executable.
+is bounded by the input length, see `Props.C18.readObject_progress`, and by `maxBERDepth`, see
+`Props.C18.depth_bounded`).  Core Lean only; executable.
 -/
 import Gmsm.Util.Bytes
 namespace Model.BER
@@ -99,6 +100,7 @@ mutual
                   | .error e => .error e
                   | .ok (items, off') =>
                     .ok (.cons tag items, if indefinite then off' + 2 else contentEnd)
+  termination_by structural fuel => fuel
   /-- the loop `for (offset < contentEnd) || indefinite { subObj, offset = readObjectDepth(..., depth) … }`
       (`depth` is the depth of the children, i.e. that of the enclosing object plus one) -/
   def readItems : Nat → Bytes → Nat → Nat → Bool → Nat → Except Err (List Obj × Nat)
@@ -121,6 +123,7 @@ mutual
             match readItems fuel ber off' contentEnd indefinite depth with
             | .error e => .error e
             | .ok (os, off'') => .ok (o :: os, off'')
+  termination_by structural fuel => fuel
 end
 
 /-- `ber2der` (`readObject(ber, 0)` = `readObjectDepth(ber, 0, 0)`) -/
